@@ -208,6 +208,14 @@ def make_trace(tid, rng, nops=25, **opt):
     record.random_ops(rec, rng, size_b, nops, unit=cs, big=(size_b + 4096) if runs else min(6 * cs + 4096, 2 << 20))
     if opt.get("many") in ("mid", "big", True):
         diskprop.twin_index_ops(rec, rng, size_b, cs, l2_real * cs)
+    if datafile:
+        # the cluster stored at offset 0 of the data file (a valid place there): requests that run from it into its successor
+        for c_ in [c_ for c_ in range(nc - 1) if t[c_] in ("N", "ZA") and h[c_] == 0][:2]:
+            o_ = (c_ + 1) * cs - rng.choice([512, 8, cs // 2])
+            if o_ + 2 * cs <= size_b:
+                rec.readoffset(o_ - o_ % 8, rng.choice([1024, cs, cs + 512]))
+                rec.seek(c_ * cs, 0)
+                rec.read(2 * cs)
     geo = b.geo(nfiles=2)
     timg = {"ext": ext, "datafile": datafile, "nc": nc, "s": S, "t": t, "h": h,
             "al_lo": [a & 0xFFFF for a in al], "al_hi": [a >> 16 for a in al],
